@@ -59,6 +59,11 @@ def skeleton(text):
             # symmetric comparisons: operands in text order (`a == b` is `b == a`)
             a, b = sorted([n.left, n.comparators[0]], key=ast.unparse)
             n = ast.Compare(left=a, ops=n.ops, comparators=[b])
+        if isinstance(n, ast.Compare) and len(n.ops) == 1 and isinstance(n.ops[0], (ast.In, ast.NotIn)) and \
+                isinstance(n.comparators[0], (ast.Tuple, ast.List, ast.Set)) and 1 <= len(n.comparators[0].elts) <= 6:
+            # membership in a displayed collection is the disjunction of the equalities
+            alts = ('or', [rec(ast.Compare(left=n.left, ops=[ast.Eq()], comparators=[e])) for e in n.comparators[0].elts])
+            return alts if isinstance(n.ops[0], ast.In) else ('not', alts)
         if isinstance(n, ast.Compare) and len(n.ops) == 1 and type(n.ops[0]) in NEG:
             pos = ast.Compare(left=n.left, ops=[NEG[type(n.ops[0])]()], comparators=n.comparators)
             return ('not', ('atom', _dec(ast.unparse(pos))))
